@@ -938,9 +938,13 @@ func VH_C01_summary_first() {
 	s := &vhScenario{rootSig: vChoice("root.sig", 2)}
 	s.root = vhResponseRoot(s, "samlp:Response")
 	n := 2 + vChoice("nAssertions-2", 2)
+	indented := vFlag("indented") // a pretty-printed message: white-space text between the Response's children
 	for i := 0; i < n; i++ {
 		p := "c" + string(rune('0'+i))
 		a := vhAssertionEl(p, vhSigValid)
+		if indented {
+			s.root.CreateText("\n  ")
+		}
 		if vFlag(p + ".encrypted") {
 			s.root.AddChild(vhEncryptedEl(p+".enc", a.el))
 		} else {
